@@ -208,7 +208,18 @@ func init() {
 				Ops:     map[string]int{"add": 30, "addmany": 6, "wuf": 16, "close": 8, "purge": 3, "release": 4, "yield": 3},
 				Ctrl:    map[string]int{"pausewait": 4, "resume": 4, "stop": 2, "waitstop": 2, "restart": 2, "wuf": 4},
 				MaxCtrl: scale(th, 4, 8), GatedProb: 25, MaxBatch: 4}
-			return genProgram(t, "C06", pf, th)
+			// "several concurrent barrier callers": in one program in three ordinary clients call the
+			// barriers too; nobody calls Resume or Restart while they run (the controller issues barrier
+			// calls only and leaves the worker as it is; the epilogue restarts it when all clients are done)
+			concurrentBarriers := rapid.IntRange(0, 2).Draw(t, "concurrentbarriers") == 0
+			if concurrentBarriers {
+				pf.Ops = map[string]int{"add": 30, "addmany": 6, "wuf": 10, "close": 4, "purge": 3, "release": 4, "yield": 3, "pausewait": 5, "stop": 4, "waitstop": 3}
+				pf.Ctrl = map[string]int{"pausewait": 4, "stop": 3, "waitstop": 2, "wuf": 4}
+				pf.MinClients = 2
+			}
+			c := genProgram(t, "C06", pf, th)
+			c.Cfg.NoCtrlTail = concurrentBarriers
+			return c
 		},
 		Oracles: []oracleFn{oC06},
 		Foreign: []oracleFn{oCrash("*"), oDeadlock("C03"), oLivelock("C03")},
